@@ -44,7 +44,50 @@ type chainCase struct {
 	FailAt    int    `json:"failAt"`    // > 0: the underlying writer fails from that byte on (client gone)
 	Alt       bool   `json:"alt"`       // the second of two requests goes to the other route on the same method and path
 	CondPanic bool   `json:"condPanic"` // a condition function of the route panics during selection (under the read lock)
+	Origin    string `json:"origin"`    // Origin header of the requests (filters scripted "cors" are real CORS filters)
+	PanicVal  string `json:"panicVal"`  // "" (a string) | abort (http.ErrAbortHandler) | err | int : the value panics are raised with
+	Copy      bool   `json:"copy"`      // targets stream with io.Copy into the writer below the Response (io.ReaderFrom fast paths)
+	RouteFlip bool   `json:"routeFlip"` // a copy of the OTHER route (from WebService.Routes()) gets the opposite encoding setting at run time
 }
+
+var errPanicValue = fmt.Errorf("target-panic-error-value")
+
+// panicValue: the value a scripted panic is raised with
+func panicValue(kind, text string) interface{} {
+	switch kind {
+	case "abort":
+		return http.ErrAbortHandler
+	case "err":
+		return errPanicValue
+	case "int":
+		return 4242
+	}
+	return text
+}
+
+func isPanicValue(pv interface{}) bool {
+	if pv == http.ErrAbortHandler || pv == errPanicValue || pv == 4242 {
+		return true
+	}
+	s := fmt.Sprint(pv)
+	return strings.HasPrefix(s, "pb-") || strings.HasPrefix(s, "pa-") || strings.HasPrefix(s, "target-panic")
+}
+
+// onlyReader hides every optional interface of a reader (io.WriterTo), so that io.Copy looks for
+// io.ReaderFrom on the destination
+type onlyReader struct{ r io.Reader }
+
+func (o onlyReader) Read(p []byte) (int, error) { return o.r.Read(p) }
+
+// readFromRecorder: a recorder that, like the ResponseWriter of a real server, implements io.ReaderFrom
+type readFromRecorder struct {
+	*httptest.ResponseRecorder
+}
+
+func (r readFromRecorder) ReadFrom(src io.Reader) (int64, error) {
+	return io.Copy(struct{ io.Writer }{r.ResponseRecorder}, src)
+}
+
 
 type chainPlan struct {
 	Cases  []chainCase `json:"cases"`
@@ -232,7 +275,11 @@ func ownsRequest(tag string, r *http.Request) bool {
 	return strings.HasPrefix(r.URL.Path, "/"+tag+"/")
 }
 
+var genPanicVal string // the PanicVal of the case whose container is being built / served
+
 func genFilter(i int, script string, fwrites bool, nAll int, svcTag string) restful.FilterFunction {
+	pval := genPanicVal
+	cors := restful.CrossOriginResourceSharing{AllowedDomains: []string{"http://allowed.example"}, CookiesAllowed: true}
 	return func(req *restful.Request, resp *restful.Response, chain *restful.FilterChain) {
 		l := logFor(req.Request)
 		if !ownsRequest(svcTag, req.Request) {
@@ -241,7 +288,7 @@ func genFilter(i int, script string, fwrites bool, nAll int, svcTag string) rest
 		l.add(devent{K: "enter", F: i, Rq: l.id(req), Rs: l.id(resp), At: seenAttrs(req, req.Request, nAll), Who: whoOf(req)})
 		if script == "pb" {
 			l.add(devent{K: "panic", F: i})
-			panic(fmt.Sprintf("pb-%d", i))
+			panic(panicValue(pval, fmt.Sprintf("pb-%d", i)))
 		}
 		if fwrites {
 			b := []byte(fmt.Sprintf("<%d", i))
@@ -279,6 +326,13 @@ func genFilter(i int, script string, fwrites bool, nAll int, svcTag string) rest
 			l.add(devent{K: "pass", F: i, Rq: l.id(req), Rs: l.id(resp)})
 			restful.HttpMiddlewareHandlerToFilter(mw)(req, resp, chain)
 			l.add(devent{K: "ret", F: i})
+		case "cors":
+			// a real CORS filter (actual requests only: it passes control on exactly once, whatever the Origin)
+			req.SetAttribute(fmt.Sprintf("f%d", i), 1)
+			req.SetAttribute("who", i)
+			l.add(devent{K: "pass", F: i, Rq: l.id(req), Rs: l.id(resp), Who: i})
+			cors.Filter(req, resp, chain)
+			l.add(devent{K: "ret", F: i})
 		default: // pass, pa
 			req.SetAttribute(fmt.Sprintf("f%d", i), 1)
 			req.SetAttribute("who", i)
@@ -288,7 +342,7 @@ func genFilter(i int, script string, fwrites bool, nAll int, svcTag string) rest
 		}
 		if script == "pa" {
 			l.add(devent{K: "panic", F: i})
-			panic(fmt.Sprintf("pa-%d", i))
+			panic(panicValue(pval, fmt.Sprintf("pa-%d", i)))
 		}
 		if fwrites {
 			b := []byte(fmt.Sprintf("%d>", i))
@@ -308,8 +362,28 @@ func payloadBytes(n int) []byte {
 	return b
 }
 
+var copyMode bool
+
 func writeChunks(l *reqLog, w io.Writer, payload, chunks int) {
 	data := payloadBytes(payload)
+	if copyMode {
+		if resp, ok := w.(*restful.Response); ok {
+			w = resp.ResponseWriter
+		}
+		if chunks <= 1 {
+			l.wcalls++
+			l.written.Write(data)
+			io.Copy(w, onlyReader{bytes.NewReader(data)})
+			return
+		}
+		// a plain Write first (buffered by a compressor), the rest streamed
+		l.wcalls += 2
+		l.written.Write(data)
+		k := len(data) / 2
+		w.Write(data[:k])
+		io.Copy(w, onlyReader{bytes.NewReader(data[k:])})
+		return
+	}
 	if chunks <= 0 {
 		chunks = 1
 	}
@@ -338,6 +412,7 @@ type chainWorld struct {
 
 func buildChainContainer(cs chainCase, instrument bool) *restful.Container {
 	nAll := cs.Lv[0] + cs.Lv[1] + cs.Lv[2]
+	genPanicVal = cs.PanicVal
 	c := restful.NewContainer()
 	c.DoNotRecover(!cs.Rec)
 	c.EnableContentEncoding(cs.CEnc != cs.FlipAfter)
@@ -395,12 +470,12 @@ func buildChainContainer(cs chainCase, instrument bool) *restful.Container {
 		}
 		if cs.Tgt == "panic" {
 			l.add(devent{K: "panic", F: 0})
-			panic("target-panic")
+			panic(panicValue(cs.PanicVal, "target-panic"))
 		}
 		writeChunks(l, resp, cs.Payload, cs.Chunks)
 		if cs.Tgt == "panicAfterWrite" {
 			l.add(devent{K: "panic", F: 0})
-			panic("target-panic-after-write")
+			panic(panicValue(cs.PanicVal, "target-panic-after-write"))
 		}
 	}
 	rb := ws.GET("/r").To(target)
@@ -443,6 +518,19 @@ func buildChainContainer(cs chainCase, instrument bool) *restful.Container {
 		ab.ContentEncodingEnabled(false)
 	}
 	ws.Route(ab)
+	if cs.RouteFlip && cs.REnc != "unset" {
+		// Routes() hands out copies: changing one is not a change of the registered route, and certainly
+		// not of the other route
+		for _, rt := range ws.Routes() {
+			if len(rt.If) > 0 && rt.Path == "/s/r" {
+				probe, _ := http.NewRequest("GET", "/s/r", nil)
+				probe.Header.Set("X-Alt", "1")
+				if rt.If[0](probe) {
+					rt.EnableContentEncoding(cs.REnc != "on")
+				}
+			}
+		}
+	}
 	ws.Route(ws.GET("/probe").To(func(req *restful.Request, resp *restful.Response) { resp.Write([]byte("probe-ok")) }))
 	c.Add(ws)
 	// a second service with the same number of service / route filters, but its own
@@ -598,7 +686,8 @@ func runChainCase(tw *traceWriter, cs chainCase, rid *int) {
 		if cs.CondPanic && rep == 0 && routedLike {
 			condHdr = "1"
 		}
-		hr, err := buildRequest(method, path, [][2]string{{"X-Rid", id}, {"Accept-Encoding", cs.AE}, {"X-Alt", altHdr}, {"X-Cond-Panic", condHdr}}, nil, false)
+		copyMode = cs.Copy
+		hr, err := buildRequest(method, path, [][2]string{{"X-Rid", id}, {"Accept-Encoding", cs.AE}, {"X-Alt", altHdr}, {"X-Cond-Panic", condHdr}, {"Origin", cs.Origin}}, nil, false)
 		if err != nil {
 			fatal("bad request: %v", err)
 		}
@@ -607,6 +696,9 @@ func runChainCase(tw *traceWriter, cs chainCase, rid *int) {
 			rec.Header().Set("Content-Encoding", cs.PreCE)
 		}
 		var out http.ResponseWriter = rec
+		if cs.Copy {
+			out = readFromRecorder{rec}
+		}
 		var fw *countingWriter
 		if cs.FailAt > 0 {
 			fw = &countingWriter{hdr: rec.Header(), budget: cs.FailAt}
@@ -625,6 +717,9 @@ func runChainCase(tw *traceWriter, cs chainCase, rid *int) {
 			}
 			if altHdr != "" {
 				creq.Header.Set("X-Alt", altHdr)
+			}
+			if cs.Origin != "" {
+				creq.Header.Set("Origin", cs.Origin)
 			}
 			cl := &http.Client{Transport: &http.Transport{DisableCompression: true}}
 			if resp, err := cl.Do(creq); err == nil {
@@ -700,8 +795,7 @@ func runChainCase(tw *traceWriter, cs chainCase, rid *int) {
 		escEq := true
 		if pv != nil {
 			esc = 1
-			s := fmt.Sprint(pv)
-			escEq = strings.HasPrefix(s, "pb-") || strings.HasPrefix(s, "pa-") || strings.HasPrefix(s, "target-panic")
+			escEq = isPanicValue(pv)
 		}
 		// what had been written through the Response before the recover handler wrote
 		wr := l.written.Bytes()
@@ -829,10 +923,12 @@ func randomChainCase(r *rand.Rand, mode string) chainCase {
 		cs.Lv = [3]int{r.Intn(6), r.Intn(6), r.Intn(6)}
 	}
 	n := cs.Lv[0] + cs.Lv[1] + cs.Lv[2]
-	scripts := []string{"pass", "pass", "pass", "pass", "replace", "mw", "stop"}
+	scripts := []string{"pass", "pass", "pass", "pass", "replace", "mw", "stop", "cors"}
 	if mode == "panic" {
-		scripts = []string{"pass", "pass", "pass", "pass", "pass", "replace", "mw", "stop", "pb", "pa"}
+		scripts = []string{"pass", "pass", "pass", "pass", "pass", "replace", "mw", "stop", "pb", "pa", "cors"}
+		cs.PanicVal = pick(r, []string{"", "", "", "abort", "err", "int"})
 	}
+	cs.Origin = pick(r, []string{"", "http://allowed.example", "http://evil.example", "null"})
 	faults := 0
 	for i := 0; i < n; i++ {
 		s := pick(r, scripts)
@@ -891,6 +987,8 @@ func randomChainCase(r *rand.Rand, mode string) chainCase {
 		}
 	}
 	if mode == "enc" {
+		cs.Copy = r.Intn(4) == 0
+		cs.RouteFlip = cs.REnc != "unset" && r.Intn(2) == 0
 		cs.FlipAfter = r.Intn(3) == 0
 		if r.Intn(6) == 0 {
 			cs.FailAt = 1 + r.Intn(40)
